@@ -97,3 +97,42 @@
         let x: u32 = kani::any();
         assert!(x.estimated_size() == 5, "[canary]");
     }
+
+    // ---- variable-length impls at fixed small lengths (symbolic contents): bounded in length
+    #[kani::proof]
+    #[kani::unwind(6)]
+    #[kani::stub(crate::error::Error::with_context, vk_with_context_stub)]
+    #[kani::stub(crate::error::Error::with_source, vk_with_source_stub)]
+    #[kani::stub(std::backtrace::Backtrace::capture, vk_bt_stub)]
+    fn code_vec_u8_len3() {
+        let a: [u8; 3] = kani::any();
+        let x: Vec<u8> = vec![a[0], a[1], a[2]];
+        assert!(x.estimated_size() == 8 + 3, "[estimated_size_is_length_prefix_plus_bytes]");
+        let mut buf = [0xA5u8; 14];
+        {
+            let mut w = &mut buf[..];
+            let r = x.encode(&mut w);
+            assert!(r.is_ok(), "[encode_into_large_enough_buffer_succeeds]");
+            assert!(w.len() == 14 - 11, "[encode_writes_exactly_estimated_size_bytes]");
+            std::mem::forget(r);
+        }
+        assert!(buf[..8] == 3usize.to_le_bytes(), "[length_prefix_is_le_usize]");
+        assert!(buf[8] == a[0] && buf[9] == a[1] && buf[10] == a[2] && buf[11] == 0xA5, "[payload_follows_prefix_and_frame]");
+        {
+            let mut rd = &buf[..11];
+            match Vec::<u8>::decode(&mut rd) {
+                Ok(y) => { assert!(y.len() == 3 && y[0] == a[0] && y[1] == a[1] && y[2] == a[2], "[decode_of_encode_is_identity]"); std::mem::forget(y); }
+                Err(e) => { assert!(false, "[decode_of_encode_is_ok]"); std::mem::forget(e); }
+            }
+        }
+        // destination one byte short: size-limit error, never Ok
+        let mut small = [0u8; 10];
+        {
+            let mut w = &mut small[..];
+            match x.encode(&mut w) {
+                Ok(()) => assert!(false, "[short_buffer_is_never_ok]"),
+                Err(e) => { assert!(e.kind() == ErrorKind::BufferSizeLimit, "[short_buffer_is_size_limit_error]"); std::mem::forget(e); }
+            }
+        }
+        std::mem::forget(x);
+    }
